@@ -114,7 +114,7 @@ StepLoad(ev) ==
    the selected song (setSongNum) -- with a negative number that indexes m_rawSongsData[-1] *)
 StepSel(ev) ==
   LET reload == cur.loaded /\ cur.kind = "xmi"
-      predCrash == reload /\ ev.i < 0 /\ ~Repaired
+      predCrash == reload /\ ev.i < 0 /\ ~R("sel")
       md == IF predCrash THEN " model=crash@setSongNum" ELSE ""
       pred == IF predCrash THEN Crash("setSongNum", "song-index") ELSE Unk
       d == ev.st # "skip" /\ reload /\ (predCrash # (ev.st \in {"crash", "throw"}))
